@@ -122,6 +122,8 @@ func (v Violation) Key() string { return v.Property + "/" + v.Rule + "/" + v.Sig
 // run does not stop at them (set by the driver from known-findings.jsonl).
 var KnownSigs = map[string]bool{}
 
+var relabelForC15 = map[string]bool{"C01": true, "C02": true, "C03": true, "C04": true, "C05": true, "C06": true}
+
 var relabelForC14 = map[string]bool{"C03": true, "C04": true, "C05": true, "C06": true, "C08": true}
 
 // World is one simulated execution.
@@ -204,11 +206,18 @@ func (w *World) Report(v Violation) {
 	if v.Seq == 0 {
 		v.Seq = w.C.Seq
 	}
-	if w.Cfg.Property == "C14" && relabelForC14[v.Property] {
+	if KnownSigs[v.Key()] {
+	} else if w.Cfg.Property == "C14" && relabelForC14[v.Property] {
 		// the sliced configuration must behave like the inline one: violations of the
 		// rollout/teardown/status/archival properties in a sliced run are C14 violations
 		v.Rule = v.Property + "-" + v.Rule
 		v.Property = "C14"
+	}
+	if KnownSigs[v.Key()] {
+		// a listed known finding of its own property: never relabelled
+	} else if w.Cfg.Property == "C15" && relabelForC15[v.Property] {
+		v.Rule = v.Property + "-" + v.Rule
+		v.Property = "C15"
 	}
 	k := v.Key()
 	if w.violSeen[k] {
